@@ -92,7 +92,11 @@ def table_cases(rep, tier, seed):
         raise core.MachineryError("could not produce result file: %s" % r)
     with zipfile.ZipFile(os.path.join(d, "r3.zip")) as z:
         stats["r3.zip"] = json.loads(z.read("stats.json"))
-    combos = [(["r0.zip", "r3.zip"], False, False), (["r0.zip", "r1.zip"], False, False), (["r1.zip", "r0.zip"], True, False), (["r0.zip", "r1.zip"], False, True),
+    # the same file name in two directories: with --use_filenames the labels are the paths as given, and they differ
+    shutil.copy(os.path.join(d, "r3.zip"), os.path.join(d, "runb", "r0.zip"))
+    stats["runb/r0.zip"] = stats["r3.zip"]
+    combos = [(["r0.zip", "runb/r0.zip"], True, False), (["runb/r0.zip", "r1.zip", "r0.zip"], True, False),
+              (["r0.zip", "r3.zip"], False, False), (["r0.zip", "r1.zip"], False, False), (["r1.zip", "r0.zip"], True, False), (["r0.zip", "r1.zip"], False, True),
               (["r1.zip", "r0.zip"], False, True), (["r0.zip"], False, False), (["r0.zip", "r1.zip", "r1.zip"], True, True),
               (["r2.zip", "r0.zip"], True, False)]
     import pandas as pd
@@ -101,13 +105,13 @@ def table_cases(rep, tier, seed):
         argv = fs + ["--save_table", "table%d.csv" % n, "--no_warnings", "--ignore_title"] + (["--use_filenames"] if usefn else []) + (["--merge"] if merge else [])
         r = cli.run_cli("res", argv, d)
         if merge:
-            labels = ["est%s.txt" % fs[0][1]]       # info of the first result -> label of the merged column
+            labels = ["est0.txt" if fs[0] in ("r3.zip", "runb/r0.zip") else "est%s.txt" % fs[0][1]]       # info of the first result -> label of the merged column
             want = {labels[0]: {k: float(np.mean([stats[f][k] for f in fs])) for k in stats[fs[0]]}}
         elif usefn:
             labels = list(fs)
             want = {f: stats[f] for f in fs}
         else:
-            lab = lambda f: "est0.txt" if f == "r3.zip" else "est%s.txt" % f[1]  # noqa: E731
+            lab = lambda f: "est0.txt" if f in ("r3.zip", "runb/r0.zip") else "est%s.txt" % f[1]  # noqa: E731
             labels = [lab(f) for f in fs]
             want = {lab(f): stats[f] for f in fs}
         o = {"out": "ok", "labels": [], "cells_ok": False, "keys_ok": False}
